@@ -40,9 +40,9 @@ def replay_schedule(rec, seed):
         for q in h[1:]:
             try:
                 if q['q'] == 'get':
-                    xc.q_get(ex, pos[q['arg']], rng.randint(0, 2))
+                    xc.q_get(ex, pos[q['arg']], rng.randint(0, 3))
                 elif q['q'] == 'many':
-                    ex.get_cells([xc.mk_cell(pos[c], None, rng.randint(0, 2)) for c in q['arg']])
+                    ex.get_cells([xc.mk_cell(pos[c], None, rng.randint(0, 3)) for c in q['arg']])
                 else:
                     xc.q_sheet(ex, q['arg'], rng.random() < 0.5)
             except repo.E2PyclException:
@@ -50,12 +50,12 @@ def replay_schedule(rec, seed):
             except Exception:
                 pass
     if batch:
-        ex.set_cells([xc.mk_cell(pos[c], v, rng.randint(0, 2)) for c, v in batch])
+        ex.set_cells([xc.mk_cell(pos[c], v, rng.randint(0, 3)) for c, v in batch])
         # calls that leave the overrides as they are: an empty batch, the same batch once more
         if seed % 3 == 0:
             ex.set_cells([])
         if seed % 5 == 0:
-            ex.set_cells([xc.mk_cell(pos[c], v, rng.randint(0, 2)) for c, v in batch])
+            ex.set_cells([xc.mk_cell(pos[c], v, rng.randint(0, 3)) for c, v in batch])
     sizes0 = xc.q_sizes(ex)
     if sizes0 != rec['sizes']:
         return False, f"sizes {sizes0} differ from used range (+) overrides {rec['sizes']}"
@@ -63,12 +63,12 @@ def replay_schedule(rec, seed):
     for i, q in enumerate(h[1:]):
         kind, arg, exp = q['q'], q['arg'], q['exp']
         if kind == 'get':
-            got = xc.q_get(ex, pos[arg], rng.randint(0, 2))
+            got = xc.q_get(ex, pos[arg], rng.randint(0, 3))
             if not c04.same_small(got, exp):
                 return False, f'query {i + 1} get {arg} -> {got}, ideal executor gives {exp}'
         elif kind == 'many':
             try:
-                got = [xc.val_json('val', c.value) for c in ex.get_cells([xc.mk_cell(pos[c], None, rng.randint(0, 2)) for c in arg])]
+                got = [xc.val_json('val', c.value) for c in ex.get_cells([xc.mk_cell(pos[c], None, rng.randint(0, 3)) for c in arg])]
             except repo.E2PyclException:
                 raise
             except Exception:
@@ -138,17 +138,17 @@ def record_query_trace(w, rng, n):
     tr = []
     batch = [[rng.choice(['S1A1', 'S1A2', 'S1F4', 'S2C3', 'S1B2', 'S2B1']), rng.choice([2, 4, 6])] for _ in range(rng.randint(0, 4))]
     if batch:
-        ex.set_cells([xc.mk_cell(pos[c], v, rng.randint(0, 2)) for c, v in batch])
+        ex.set_cells([xc.mk_cell(pos[c], v, rng.randint(0, 3)) for c, v in batch])
         tr.append({'ev': 'set', 'batch': batch})
     for _ in range(n):
         x = rng.random()
         if x < 0.6:
             c = rng.choice(names)
-            tr.append({'ev': 'get', 'c': c, 'res': xc.q_get(ex, pos[c], rng.randint(0, 2))})
+            tr.append({'ev': 'get', 'c': c, 'res': xc.q_get(ex, pos[c], rng.randint(0, 3))})
         elif x < 0.75:
             cs = [rng.choice(names) for _ in range(rng.randint(1, 4))]
             try:
-                res = [xc.val_json('val', c.value) for c in ex.get_cells([xc.mk_cell(pos[c], None, rng.randint(0, 2)) for c in cs])]
+                res = [xc.val_json('val', c.value) for c in ex.get_cells([xc.mk_cell(pos[c], None, rng.randint(0, 3)) for c in cs])]
                 tr.append({'ev': 'many', 'cs': cs, 'res': res})
             except repo.E2PyclException:
                 raise
